@@ -275,6 +275,10 @@ func (r *Ref) member(n *N, name string) (interface{}, *EvalError) {
 		return e.Any, nil
 	case "Objs":
 		return e.Objs, nil
+	case "Info", "info":
+		return e.Info, nil
+	case "Index", "index":
+		return e.Index, nil
 	}
 	return nil, r.outside(n, "unknown member %s", name)
 }
@@ -441,6 +445,9 @@ func (r *Ref) call(n *N, name string, args []interface{}) (interface{}, *EvalErr
 		return r.guard(n, func() interface{} { return e.CS(s) })
 	case "Va":
 		return r.guard(n, func() interface{} { return e.Va(args...) })
+	case "Tup":
+		cp := append([]interface{}{}, args...)
+		return r.guard(n, func() interface{} { return e.Tup(cp...) })
 	case "An":
 		if len(args) != 2 {
 			return nil, r.fail(n, "bad arguments to An")
